@@ -514,6 +514,15 @@ func (c *ChannelArbitrator) progressStateMachineAfterRestart(bestHeight int32,
 		case StateBroadcastCommit:
 			fallthrough
 		case StateCommitmentBroadcasted:
+			fallthrough
+
+		// If we went down after committing StateContractClosed but
+		// before the contract resolvers were written (and the next
+		// state committed), the state step for StateContractClosed
+		// runs again. It has to see the close trigger as well: with
+		// a chain trigger only HTLCs that are about to expire get an
+		// action, so all others would be left without a resolver.
+		case StateContractClosed:
 			switch c.cfg.CloseType {
 
 			case channeldb.CooperativeClose:
